@@ -26,20 +26,52 @@ LEVEL_TEXT = ('Lean theorems over the rationals for every number of qubits, ever
               'probability is the volume of the box of uniform variates on which generate() returns that error; the '
               'splitting acceptance probability is min(1, likelihood ratio) and, for the single-qubit move, the ratio of '
               'the two single-qubit probabilities. The pre-fix Y mask is proved NOT to normalise (regression witness). '
+              'The body of SplittingSimulation is modelled whole (Model/Splitting.lean) and proved about for every code, '
+              'every decoder (any function of the syndrome), every channel / deformation, every previous error and every '
+              'draw: each call of get_next_error proposes previous error times the drawn letter, accepts with probability '
+              'min(1, P(new)/P(previous)) of the C18 product probabilities (= ratio of the two single-qubit probabilities), '
+              'moves iff the coin is 1 and the proposal does not decode successfully, and returns the error with its own '
+              'probability; the step is in detailed balance with, and leaves stationary, the product distribution '
+              'restricted to the set of errors that fail to decode (the complement of success of run_once, C11); a chain '
+              'never leaves that set; the initial error is checked against decoders[0] only; _run keeps one list of '
+              'length n_runs per error rate and run(a); run(b) = run(a+b); get_results raises TypeError until postprocess '
+              'has run and afterwards reports n_runs and one estimate per rate, the first being the direct Monte-Carlo '
+              'frequency; compute_optimal_c returns the grid point just below the balance point lhs = rhs = N/2 or the '
+              'fallback 1; the telescoping product is exact when every factor is an exact ratio; the acceptance-ratio '
+              'identity c E_j[g(c a/b)] / E_{j+1}[g(b/(c a))] = Z_{j+1}/Z_j holds for every c when both densities are '
+              'taken on the same error. PROVED NEGATION: the class instead pairs log P_j of chain j with log P_{j+1} of '
+              "chain j+1 (two different errors); on an exact population it returns 0.4856 where the ratio is 5/12 "
+              '(estimator_is_not_the_acceptance_ratio; observation D17, outside the statement of C18). '
               'The model is tied to the code by exact differential runs on dyadic channels.')
 LEVEL_NOTE = ('trusted: Lean kernel + standard axioms; correspondence harness; float products are exact on the dyadic '
               'inputs used (compared exactly) and within 1e-12 relative otherwise; np.log / np.exp are not modelled: '
-              'log outputs are compared with the log of the exact rational to 1e-9')
-TECHNIQUE = ('Lean 4 proof (induction over qubit lists, ring arithmetic over Rat; Real.log of a product for the log form) '
+              'log outputs are compared with the log of the exact rational to 1e-9. Splitting chain: numpy.random.choice '
+              '(the only sampling call of the class) is scripted, a different sampling mechanism is reported as broken '
+              'correspondence and decided by the oracle; the Metropolis coin is modelled on the uniform variate behind '
+              'RandomState.choice(p=...) (cumsum / searchsorted right), scripted variates within 1e-9 of 1-q are dropped; '
+              'decoders are a parameter (recorded answers per error rate). Not proved: irreducibility of the chain on '
+              'the failure set (a hypothesis of the splitting method). Not tested: long-run statistics of p_est (MCMC '
+              'output: no cheap sound bound; instead the one-step kernel is tested on independent calls with exact '
+              'binomial confidence intervals at level 1e-10, independently of how qubit and letter are proposed)')
+TECHNIQUE = ('Lean 4 proof (induction over qubit lists, ring arithmetic over Rat; Real.log of a product for the log form; '
+             'state-machine invariants of the chain by induction over sweeps; field arithmetic for the estimator; '
+             'decide +kernel for the population witness) '
              '+ differential correspondence with the compiled model driver, exhaustive over all 4^n errors for n <= 4 '
-             '(quick) / n <= 6 (thorough)')
+             '(quick) / n <= 6 (thorough); whole traces of the real SplittingSimulation under scripted draws')
 TRUSTED = ['IEEE-754 double products of dyadic numbers are exact while the odd part fits in 53 bits (checked per case); '
-           'np.log/np.exp accurate to 1e-9 relative']
+           'np.log/np.exp accurate to 1e-9 relative',
+           'numpy RandomState.choice(a, p=p) returns the index searchsorted(cumsum(p)/sum(p), u, side=right) of one '
+           'uniform variate u (the model of the Metropolis coin)']
 ASSUMPTIONS = ['errors are binary vectors of length 2n (numpy truthiness is modelled for other integers; other lengths '
                'are rejected by the model while numpy may broadcast)',
-               'acceptance ratio: the previous error has non-zero probability (otherwise the code computes nan)']
+               'acceptance ratio (C18.lean): the previous error has non-zero probability; the chain model '
+               '(C18Splitting.lean) covers probability 0 as the code behaves (q = 1)',
+               'estimator: recorded probabilities are positive and all chains have the same number of samples '
+               '(otherwise the model answers "unmodelled"); at least one sample after start_run (else ValueError, modelled)',
+               'decoders are deterministic functions of the syndrome (C06)']
 ANCHOR_FILES = ['panqec/error_models/_base_error_model.py', 'panqec/error_models/_pauli_error_model.py',
                 'panqec/simulation/_splitting_simulation.py']
+PROPERTY_MODULES = ['PanqecVerif.Properties.C18', 'PanqecVerif.Properties.C18Splitting']
 
 SMALL_CODES = [('Planar2DCode', (1, 1)), ('Toric2DCode', (1, 1)), ('Planar2DCode', (2, 1)), ('Toric3DCode', (1, 1, 1)),
                ('RotatedPlanar2DCode', (2, 2)), ('Toric2DCode', (2, 1)), ('Cyc3', (2, 1))]          # n <= 4
@@ -275,6 +307,11 @@ def correspondence(ctx):
                 tags.append('step')
     streams.append(run_two_pass(s, ops, objs, inps, tags, canons))
 
+    # --- the body of SplittingSimulation: chain of _run / get_next_error, estimator (harness/props/c18_splitting.py)
+    from harness.props import c18_splitting as SP
+    streams.append(SP.chain_stream(ctx, ctx.np_rng(1801)))
+    streams.append(SP.estimator_stream(ctx, ctx.np_rng(1802)))
+
     # --- wrong lengths (only those where numpy cannot broadcast)
     s = Stream('error_probability-malformed')
     code = make_code('Toric2DCode', (2, 1))
@@ -308,6 +345,9 @@ def close(x, q, rel=Fraction(1, 10 ** 12)):
 
 
 def check_case(case):
+    if str(case.get('kind', '')).startswith('split-'):
+        from harness.props import c18_splitting as SP
+        return SP.check_case(case)
     try:
         return _check_case(case)
     except Exception as e:  # noqa
@@ -483,7 +523,8 @@ def oracle_cases(ctx, deep):
 
 
 def oracle(ctx, deep=False, broken=None):
-    cases = oracle_cases(ctx, deep)
+    from harness.props import c18_splitting as SP
+    cases = oracle_cases(ctx, deep) + SP.oracle_cases(ctx, deep)
     fails = first_failures(cases, check_case,
                            key=lambda c: {'kind': c['kind'], 'deformed': c.get('deformation') is not None})
     return fails, {'evaluations': len(cases)}
